@@ -4,7 +4,7 @@ import ast
 import sympy as sp
 
 from vcheck import cfront, csymx, rules, symx
-from vcheck.core import PyRepo, AnalysisError, call_name, dotted_name, kwarg, norm, walk_no_nested
+from vcheck.core import PyRepo, AnalysisError, call_name, const_value, dotted_name, kwarg, norm, walk_no_nested
 from vcheck.cstr import parse_tuple_format
 from vcheck.ceffects import parse_tuple_binding
 from vcheck.rules import cfg_of
@@ -209,6 +209,28 @@ def formulas(chk, fn, name, where):
     chk.ob("R17.3", name + "::previous-iterate-saved", any(str(r) == "z" for r in rows.get("z1", [])), where, "z1 = z is saved before the Newton step (convergence test uses |z - z1|)")
 
 
+def _count_sign_test(test, name="npts"):
+    """+1 when the test says `name <= 0` (name < 1, 0 >= name, not name > 0 ...), -1 when it says `name > 0`, else 0"""
+    if isinstance(test, ast.UnaryOp) and isinstance(test.op, ast.Not):
+        return -_count_sign_test(test.operand, name)
+    if not (isinstance(test, ast.Compare) and len(test.ops) == 1):
+        return 0
+    a, b, op = test.left, test.comparators[0], type(test.ops[0])
+    flip = {ast.Lt: ast.Gt, ast.Gt: ast.Lt, ast.LtE: ast.GtE, ast.GtE: ast.LtE}
+    if isinstance(b, ast.Name) and b.id == name and op in flip:
+        a, b, op = b, a, flip[op]
+    if not (isinstance(a, ast.Name) and a.id == name and op in flip):
+        return 0
+    c = const_value(b)
+    if isinstance(c, bool) or not isinstance(c, (int, float)):
+        return 0
+    if (op is ast.LtE and c == 0) or (op is ast.Lt and c == 1):
+        return 1
+    if (op is ast.Gt and c == 0) or (op is ast.GtE and c == 1):
+        return -1
+    return 0
+
+
 def wrapper(chk, repo, cg):
     fmt, names = parse_tuple_binding(cg)
     chk.ob("R17.4", "cgauleg::parse-format", parse_tuple_format(fmt or "") == ["d", "d", "l"] and names == ["x1", "x2", "npts_long"], "esutil/integrate/cgauleg_pywrap.c", "PyArg_ParseTuple %r binds (x1, x2, npts) as double, double, long (%s)" % (fmt, names))
@@ -217,17 +239,33 @@ def wrapper(chk, repo, cg):
     cfg = cfg_of(fi)
     view = cfg.view()
     calls = [(n, c) for n in cfg.nodes for c in rules.stmts_calls(n) if dotted_name(c.func) == "_cgauleg.cgauleg"]
-    ok = len(calls) == 1 and [norm(a) for a in calls[0][1].args] == ["x1", "x2", "npts"]
-    chk.ob("R17.4", "gauleg::call-roles", ok, fi.where(), "the extension is called with (x1, x2, npts)")
-    guards = [n for n in rules.raise_nodes(cfg) if ("npts <= 0", "T") in rules.controlling_tests(view, n)]
-    okg = bool(guards) and bool(calls)
-    if okg:
-        b = view.controlling_branches(guards[0])[0][0]
-        okg = view.dominates(b, calls[0][0])
-    chk.ob("R17.4", "gauleg::nonpositive-count-rejected", okg, fi.where(), "npts <= 0 raises and that test dominates the extension call")
-    rets = [x for x in walk_no_nested(fi.node) if isinstance(x, ast.Return)]
-    asg = [x for x in walk_no_nested(fi.node) if isinstance(x, ast.Assign) and isinstance(x.value, ast.Call) and dotted_name(x.value.func) == "_cgauleg.cgauleg"]
-    chk.ob("R17.4", "gauleg::returns-x-w", len(rets) == 1 and norm(rets[0].value) == "(x, w)" and len(asg) == 1 and norm(asg[0].targets[0]) == "(x, w)", fi.where(), "the (abscissae, weights) pair is returned as produced")
+    ok = len(calls) == 1 and not calls[0][1].keywords and [rules.xnorm(a, fi.node) for a in calls[0][1].args] == ["x1", "x2", "npts"]
+    chk.ob("R17.4", "gauleg::call-roles", ok if calls else None, fi.where(), "the extension is called with (x1, x2, npts)")
+    # some raise is controlled by a test that says npts <= 0, and that test is decided before the extension is called
+    okg = False
+    for r in rules.raise_nodes(cfg):
+        for b, lab in view.controlling_branches(r):
+            if b.kind == "branch" and _count_sign_test(rules.expand(b.ast.test, fi.node)) == (1 if lab == "T" else -1):
+                if calls and all(view.dominates(b, n) for n, _ in calls):
+                    okg = True
+    chk.ob("R17.4", "gauleg::nonpositive-count-rejected", okg if calls else None, fi.where(), "npts <= 0 raises and that test dominates the extension call")
+    # what is returned is what the extension produced: the call itself, or its two components in the same order
+    okr = None
+    rets = rules.return_nodes(cfg)
+    if calls and rets:
+        okr = True
+        for r in rets:
+            v = r.ast.value
+            if v is None:
+                okr = False
+                continue
+            v = rules.expand(v, fi.node)
+            if isinstance(v, ast.Call) and dotted_name(v.func) == "_cgauleg.cgauleg":
+                continue
+            comps = [_component(e, cfg, fi.node) for e in v.elts] if isinstance(v, ast.Tuple) and len(v.elts) == 2 else []
+            if not (len(comps) == 2 and all(c is not None and dotted_name(c.func) == "_cgauleg.cgauleg" for c, _ in comps) and [k for _, k in comps] == [0, 1]):
+                okr = False
+    chk.ob("R17.4", "gauleg::returns-x-w", okr, fi.where(), "the (abscissae, weights) pair is returned as produced")
 
 
 def cached_tables_readonly(chk, repo):
@@ -247,56 +285,342 @@ def cached_tables_readonly(chk, repo):
                        "the cached table %s is only read%s" % (attr, "" if not sites else ": " + sites[0].describe()))
 
 
+# ---------------------------------------------------------------------------
+# helpers for the layout-independent Python rules
+# ---------------------------------------------------------------------------
+def _bind_call(callee, call, drop_self=True):
+    """{parameter name: argument expression} of `call` against the parameter list of FuncInfo `callee`
+    (None when the call uses * / ** arguments or does not fit the signature)"""
+    params = [p for p in callee.params if not p.startswith("*")]
+    if drop_self and callee.cls and params and not any(isinstance(d, ast.Name) and d.id == "staticmethod" for d in callee.node.decorator_list):
+        params = params[1:]
+    if any(isinstance(a, ast.Starred) for a in call.args) or any(k.arg is None for k in call.keywords) or len(call.args) > len(params):
+        return None
+    out = dict(zip(params, call.args))
+    for k in call.keywords:
+        if k.arg not in params or k.arg in out:
+            return None
+        out[k.arg] = k.value
+    return out
+
+
+def _is_none(e):
+    return e is None or (isinstance(e, ast.Constant) and e.value is None)
+
+
+def _formula(test, atoms):
+    """propositional form of a branch test: and/or/not are interpreted, `x is None`, `a == b` (either order, != is its negation)
+    and `a < b` (>=, >, <= by exchange / negation) become atoms; anything else is an atom of its own text"""
+    def atom(key):
+        if key not in atoms:
+            atoms[key] = sp.Symbol("c%d" % len(atoms))
+        return atoms[key]
+    if isinstance(test, ast.BoolOp):
+        vals = [_formula(v, atoms) for v in test.values]
+        return sp.And(*vals) if isinstance(test.op, ast.And) else sp.Or(*vals)
+    if isinstance(test, ast.UnaryOp) and isinstance(test.op, ast.Not):
+        return sp.Not(_formula(test.operand, atoms))
+    if isinstance(test, ast.Compare) and len(test.ops) == 1:
+        a, b, op = test.left, test.comparators[0], test.ops[0]
+        if isinstance(op, (ast.Is, ast.IsNot, ast.Eq, ast.NotEq)) and (_is_none(a) or _is_none(b)):
+            f = atom(("isnone", norm(b if _is_none(a) else a)))
+            return f if isinstance(op, (ast.Is, ast.Eq)) else sp.Not(f)
+        if isinstance(op, (ast.Eq, ast.NotEq)):
+            f = atom(("eq",) + tuple(sorted((norm(a), norm(b)))))
+            return f if isinstance(op, ast.Eq) else sp.Not(f)
+        if isinstance(op, ast.Lt):
+            return atom(("lt", norm(a), norm(b)))
+        if isinstance(op, ast.GtE):
+            return sp.Not(atom(("lt", norm(a), norm(b))))
+        if isinstance(op, ast.Gt):
+            return atom(("lt", norm(b), norm(a)))
+        if isinstance(op, ast.LtE):
+            return sp.Not(atom(("lt", norm(b), norm(a))))
+    return atom(("expr", norm(test)))
+
+
+def _path_cond(view, n, fn, atoms):
+    """the condition under which CFG node n runs, as a propositional formula over the atoms of the controlling tests
+    (named temporaries in the tests are substituted first)"""
+    f = sp.true
+    for b, lab in view.controlling_branches(n):
+        if b.kind == "branch" or (b.kind == "loop" and isinstance(b.ast, ast.While)):
+            t = _formula(rules.expand(b.ast.test, fn), atoms)
+            f = sp.And(f, t if lab == "T" else sp.Not(t))
+    return f
+
+
+def _equiv(a, b):
+    from sympy.logic.inference import satisfiable
+    return not satisfiable(sp.Xor(a, b))
+
+
+def _stores(cfg):
+    """attribute / name stores made by plain assignments: target text -> [(node, value)] where value is the assigned
+    expression or ("item", <expr>, k) for the k-th component of an unpacked value"""
+    out = {}
+
+    def put(t, v, n):
+        if isinstance(t, (ast.Tuple, ast.List)):
+            for k, e in enumerate(t.elts):
+                if isinstance(v, (ast.Tuple, ast.List)) and len(v.elts) == len(t.elts):
+                    put(e, v.elts[k], n)
+                else:
+                    put(e, ("item", v, k), n)
+        else:
+            out.setdefault(norm(t), []).append((n, v))
+    for n in cfg.nodes:
+        a = n.ast
+        if n.kind == "stmt" and isinstance(a, ast.Assign):
+            for t in a.targets:
+                put(t, a.value, n)
+        elif n.kind == "stmt" and isinstance(a, ast.AnnAssign) and a.value is not None:
+            put(a.target, a.value, n)
+    return out
+
+
+def _component(value, cfg, fn):
+    """(producing call, component index or None) of a stored value: `a, b = f(..)` gives (f(..), 0) for a; a name bound once
+    by such an unpacking is followed; a name bound once to a call gives (call, None)"""
+    for _ in range(4):
+        if isinstance(value, tuple) and value[0] == "item":
+            inner = value[1]
+            if isinstance(inner, ast.Name):
+                inner = rules.expand(inner, fn)
+            return (inner, value[2]) if isinstance(inner, ast.Call) else (None, None)
+        if isinstance(value, ast.Call):
+            return value, None
+        if isinstance(value, ast.Name):
+            defs = _stores(cfg).get(value.id, [])
+            if len(defs) != 1:
+                return None, None
+            value = defs[0][1]
+            continue
+        if isinstance(value, ast.Subscript) and isinstance(const_value(value.slice), int):
+            c, k = _component(value.value, cfg, fn)
+            return (c, const_value(value.slice)) if c is not None and k is None else (None, None)
+        return None, None
+    return None, None
+
+
+def _resolves_to(repo, fi, call, qualname):
+    d = dotted_name(call.func)
+    return d is not None and repo.resolve_name(fi.module, d) == qualname
+
+
+def _self_callee(repo, fi, call):
+    """FuncInfo of `self.m(...)` inside a method of the same class, else None"""
+    d = dotted_name(call.func)
+    if d and d.startswith("self.") and d.count(".") == 1 and fi.cls:
+        q = "%s.%s.%s" % (fi.module.name, fi.cls, d[5:])
+        if repo.has(q):
+            return repo.func(q)
+    return None
+
+
+def _param_unchanged(fi, name):
+    """name is a parameter of fi that is never re-bound in its body"""
+    if name not in [p.lstrip("*") for p in fi.params]:
+        return False
+    cfg = cfg_of(fi)
+    return not any(name in cfg.defs_uses(n)[0] for n in cfg.nodes if n.kind != "entry")
+
+
+TABLES = ("self.xxi", "self.wii")
+
+
+def _setup_events(repo, fi, depth=0):
+    """[(cfg node, expression passed as the requested count)] for the nodes of fi that run QGauss.setup: a direct
+    self.setup(..) call, or a call of a method of the object that itself runs setup on every path to its normal return
+    with one of its own (unchanged) parameters as the count"""
+    out = []
+    cfg = cfg_of(fi)
+    setup = repo.func(IU + "QGauss.setup")
+    for n in cfg.nodes:
+        for c in rules.stmts_calls(n):
+            tgt = _self_callee(repo, fi, c)
+            if tgt is None:
+                continue
+            b = _bind_call(tgt, c)
+            if tgt is setup:
+                out.append((n, None if b is None else b.get("npts", ast.Constant(value=None))))
+            elif depth < 3 and tgt.name not in ("integrate_func", "integrate_data", "integrate"):
+                inner = _setup_events(repo, tgt, depth + 1)
+                if not inner:
+                    continue
+                v = cfg_of(tgt).view()
+                for m, e in inner:
+                    arg = None
+                    if b is not None and isinstance(e, ast.Name) and _param_unchanged(tgt, e.id) and v.dominates(m, cfg_of(tgt).exit):
+                        arg = b.get(e.id, tgt.defaults.get(e.id))
+                    out.append((n, arg))
+    return out
+
+
+def _reads_tables(repo, fi, seen=None):
+    """does the method (or a method of the object it calls) read the cached abscissae / weights"""
+    seen = seen if seen is not None else set()
+    if fi.qualname in seen:
+        return False
+    seen.add(fi.qualname)
+    for x in walk_no_nested(fi.node):
+        if isinstance(x, ast.Attribute) and isinstance(x.ctx, ast.Load) and norm(x) in TABLES:
+            return True
+        if isinstance(x, ast.Call):
+            tgt = _self_callee(repo, fi, x)
+            if tgt is not None and tgt.name != "setup" and _reads_tables(repo, tgt, seen):
+                return True
+    return False
+
+
+def _table_use_nodes(repo, fi):
+    cfg = cfg_of(fi)
+    out = []
+    for n in cfg.nodes:
+        if n.ast is None or n.kind not in ("stmt", "return", "branch", "loop", "raise", "with"):
+            continue
+        roots = [n.ast.test] if n.kind == "branch" else ([n.ast.test] if n.kind == "loop" and isinstance(n.ast, ast.While) else
+                                                         [n.ast.iter] if n.kind == "loop" else [i.context_expr for i in n.ast.items] if n.kind == "with" else [n.ast])
+        hit = False
+        for r in roots:
+            for x in walk_no_nested(r):
+                if isinstance(x, ast.Attribute) and isinstance(x.ctx, ast.Load) and norm(x) in TABLES:
+                    hit = True
+                if isinstance(x, ast.Call):
+                    tgt = _self_callee(repo, fi, x)
+                    if tgt is not None and tgt.name != "setup" and _reads_tables(repo, tgt):
+                        hit = True
+        if hit:
+            out.append(n)
+    return out
+
+
 def memo(chk, repo):
     fi = repo.func(IU + "QGauss.setup")
     chk.analysed_unit(fi.qualname)
     cfg = cfg_of(fi)
     view = cfg.view()
-    stores = {}
-    for n in cfg.nodes:
-        a = n.ast
-        if n.kind == "stmt" and isinstance(a, ast.Assign):
-            for t in (a.targets[0].elts if isinstance(a.targets[0], ast.Tuple) else [a.targets[0]]):
-                stores[norm(t)] = (n, norm(a.value), rules.controlling_tests(view, n))
-    key = stores.get("self.npts")
-    tabs = [stores.get("self.xxi"), stores.get("self.wii")]
-    ok = key is not None and all(t is not None for t in tabs)
+    fn = fi.node
+    atoms = {}
+    st = _stores(cfg)
+    key = st.get("self.npts", [])
+    tabs = [st.get("self.xxi", []), st.get("self.wii", [])]
+    found = [len(key) == 1] + [len(t) == 1 for t in tabs]
+    # positively identified: some of the three are stored here exactly once and another one is not stored at all;
+    # none found / stored several times: the construct is laid out in a way this rule does not recognise
+    ok = True if all(found) else (False if any(found) and any(len(x) == 0 for x in [key] + tabs) else None)
     chk.ob("R17.5", "QGauss.setup::key-and-tables-stored", ok, fi.where(), "setup stores the key (self.npts) and both tables")
     if ok:
-        same = all(t[2] == key[2] for t in tabs)
-        chk.ob("R17.5", "QGauss.setup::stored-together", same, fi.where(), "key and tables are written under the same conditions: %s" % (key[2],))
-        g = [t for t, lab in key[2]]
-        chk.ob("R17.5", "QGauss.setup::recompute-guard-compares-keys", "self.npts != npts" in g and "npts is not None" in g, fi.where(), "tables are recomputed exactly when a count is requested that differs from the cached key")
-        chk.ob("R17.5", "QGauss.setup::tables-from-key", tabs[0][1] in ("gauleg(-1.0, 1.0, self.npts)", "gauleg(-1.0, 1.0, npts)") and key[1] == "npts", fi.where(), "the tables are the rule on [-1,1] for the stored count (%s)" % tabs[0][1])
-        chk.ob("R17.5", "QGauss.setup::key-before-tables-or-same-value", view.dominates(key[0], tabs[0][0]) or tabs[0][1].endswith(", npts)"), fi.where(), "the count used for the tables is the requested one")
+        key = key[0]
+        tabs = [t[0] for t in tabs]
+        pc_key = _path_cond(view, key[0], fn, atoms)
+        pcs = [_path_cond(view, t[0], fn, atoms) for t in tabs]
+        same = all(_equiv(pc_key, p) for p in pcs)
+        chk.ob("R17.5", "QGauss.setup::stored-together", same, fi.where(), "key and tables are written under the same conditions: %s" % (rules.controlling_tests(view, key[0]),))
+        # the recompute guard: the tables are (re)computed exactly when a count is requested and it differs from the cached key
+        a_none = _formula(ast.parse("npts is None", mode="eval").body, atoms)
+        a_eq = _formula(ast.parse("npts == self.npts", mode="eval").body, atoms)
+        known = {a_none, a_eq}
+        if pcs[0].free_symbols <= known and _param_unchanged(fi, "npts"):
+            okg = _equiv(pcs[0], sp.And(sp.Not(a_none), sp.Not(a_eq)))
+        else:
+            okg = None
+        chk.ob("R17.5", "QGauss.setup::recompute-guard-compares-keys", okg, fi.where(),
+               "tables are recomputed exactly when a count is requested that differs from the cached key (condition of the store: %s)" % (rules.controlling_tests(view, tabs[0][0]),))
+        # the tables are the two results of one gauleg(-1, 1, <count>) call, abscissae first
+        c0, k0 = _component(tabs[0][1], cfg, fn)
+        c1, k1 = _component(tabs[1][1], cfg, fn)
+        okt = None
+        arg = None
+        if c0 is not None and c1 is not None and _resolves_to(repo, fi, c0, IU + "gauleg") and _resolves_to(repo, fi, c1, IU + "gauleg"):
+            b = _bind_call(repo.func(IU + "gauleg"), c0)
+            if b is not None and all(p in b for p in ("x1", "x2", "npts")):
+                arg = norm(rules.expand(b["npts"], fn))
+                okt = (c0 is c1 or norm(c0) == norm(c1)) and (k0, k1) == (0, 1) and const_value(b["x1"]) == -1.0 and const_value(b["x2"]) == 1.0 \
+                    and arg in ("npts", "self.npts") and rules.xnorm(key[1], fn) == "npts" if not isinstance(key[1], tuple) else False
+        chk.ob("R17.5", "QGauss.setup::tables-from-key", okt, fi.where(), "the tables are the rule on [-1,1] for the stored count (%s)" % (norm(c0) if c0 is not None else None,))
+        if okt is not None:
+            chk.ob("R17.5", "QGauss.setup::key-before-tables-or-same-value", arg == "npts" or (arg == "self.npts" and view.dominates(key[0], tabs[0][0])), fi.where(), "the count used for the tables is the requested one")
     # no other writer of the cached state
     writers = {}
     for q, f in repo.funcs.items():
         if q.startswith(IU + "QGauss."):
             for a in walk_no_nested(f.node):
-                if isinstance(a, ast.Assign):
-                    for t in (a.targets[0].elts if isinstance(a.targets[0], ast.Tuple) else [a.targets[0]]):
-                        if norm(t) in ("self.npts", "self.xxi", "self.wii"):
-                            writers.setdefault(norm(t), set()).add(f.name)
+                if isinstance(a, ast.Attribute) and isinstance(a.ctx, (ast.Store, ast.Del)) and norm(a) in ("self.npts", "self.xxi", "self.wii"):
+                    writers.setdefault(norm(a), set()).add(f.name)
+                if isinstance(a, ast.Call) and call_name(a) in ("setattr", "delattr") and a.args and norm(a.args[0]) == "self":
+                    writers.setdefault("setattr(self, ...)", set()).add(f.name)
     ok = all(w <= {"__init__", "setup"} for w in writers.values()) and set(writers) == {"self.npts", "self.xxi", "self.wii"}
     chk.ob("R17.5", "QGauss::who-may-write-the-cache", ok, fi.where(), "only the constructor (to None) and setup write the cached key/tables (%s)" % {k: sorted(v) for k, v in writers.items()})
     init = repo.func(IU + "QGauss.__init__")
-    iv = {norm(a.targets[0]): norm(a.value) for a in walk_no_nested(init.node) if isinstance(a, ast.Assign)}
+    iv = {}
+    for a in walk_no_nested(init.node):
+        if isinstance(a, ast.Assign):
+            for t in a.targets:
+                iv[norm(t)] = rules.xnorm(a.value, init.node)
     chk.ob("R17.5", "QGauss.__init__::starts-empty", iv.get("self.npts") == "None" and iv.get("self.xxi") == "None", init.where(), "a new object has no cached rule")
     for m in ("integrate_func", "integrate_data"):
         f = repo.func(IU + "QGauss." + m)
-        cfgm = cfg_of(f)
-        vm = cfgm.view()
-        su = [n for n in cfgm.nodes for c in rules.stmts_calls(n) if norm(c) == "self.setup(npts=npts)"]
-        uses = [n for n in cfgm.nodes if n.ast is not None and n.kind in ("stmt", "return") and any(norm(x) in ("self.xxi", "self.wii") for x in ast.walk(n.ast) if isinstance(x, ast.Attribute))]
-        ok = len(su) == 1 and bool(uses) and all(vm.dominates(su[0], u) for u in uses)
-        chk.ob("R17.5", "QGauss.%s::setup-dominates-table-use" % m, ok, f.where(), "setup(npts=npts) runs before the tables are used in every call")
+        vm = cfg_of(f).view()
+        ev = _setup_events(repo, f)
+        uses = _table_use_nodes(repo, f)
+        if not ev or not uses:
+            ok = None if not uses else False      # the tables are used and nothing here runs setup: a positive finding
+        elif any(e is None for _, e in ev):
+            ok = None                              # a setup call whose count argument could not be traced
+        else:
+            ok = len(ev) == 1 and norm(ev[0][1]) == "npts" and _param_unchanged(f, "npts") and all(vm.dominates(ev[0][0], u) for u in uses)
+        chk.ob("R17.5", "QGauss.%s::setup-dominates-table-use" % m, ok, f.where(), "setup(npts=npts) runs (directly or through a method of the object) before the tables are used in every call")
+    # integrate: function integrands go to integrate_func, anything else to integrate_data, always with (x, y, npts)
     ig = repo.func(IU + "QGauss.integrate")
-    rets = {norm(x.value) for x in walk_no_nested(ig.node) if isinstance(x, ast.Return)}
-    chk.ob("R17.5", "QGauss.integrate::forwards-npts", rets == {"self.integrate_func(xvals, yvals_or_func, npts)", "self.integrate_data(xvals, yvals_or_func, npts)"}, ig.where(), "integrate forwards (x, y-or-function, npts) to the matching integrator")
+    cfgi = cfg_of(ig)
+    vi = cfgi.view()
+    at = {}
+    seen = {}
+    okf = True
+    isf = None
+    for n in rules.return_nodes(cfgi):
+        v = rules.expand(n.ast.value, ig.node) if n.ast.value is not None else None
+        tgt = _self_callee(repo, ig, v) if isinstance(v, ast.Call) else None
+        if tgt is None or tgt.name not in ("integrate_func", "integrate_data"):
+            okf = None
+            break
+        b = _bind_call(tgt, v)
+        if b is None:
+            okf = None
+            break
+        second = "func" if tgt.name == "integrate_func" else "yvals"
+        forwards = [norm(b[p]) if p in b else None for p in ("xvals", second, "npts")] == ["xvals", "yvals_or_func", "npts"]
+        pc = _path_cond(vi, n, ig.node, at)
+        seen.setdefault(tgt.name, []).append((forwards, pc))
+    if okf:
+        tests = [k for k in at if k[0] == "expr" and k[1].startswith("isinstance(yvals_or_func,")]
+        if len(at) != 1 or len(tests) != 1 or set(seen) != {"integrate_func", "integrate_data"}:
+            okf = None if set(seen) == {"integrate_func", "integrate_data"} or len(at) != 1 else False
+        else:
+            isf = at[tests[0]]
+            okf = all(fw for v in seen.values() for fw, _ in v) and all(_param_unchanged(ig, p) for p in ("xvals", "yvals_or_func", "npts")) \
+                and _equiv(sp.Or(*[pc for _, pc in seen["integrate_func"]]), isf) and _equiv(sp.Or(*[pc for _, pc in seen["integrate_data"]]), sp.Not(isf))
+    chk.ob("R17.5", "QGauss.integrate::forwards-npts", okf, ig.where(), "integrate forwards (x, y-or-function, npts) to the matching integrator (%s)" % {k: [fw for fw, _ in v] for k, v in seen.items()})
+    # qgauss: a fresh integrator for npts points, asked once
     qg = repo.func(IU + "qgauss")
-    env = [norm(x) for x in walk_no_nested(qg.node) if isinstance(x, (ast.Assign, ast.Return))]
-    chk.ob("R17.5", "qgauss::one-shot", env == ["qg = QGauss(npts)", "return qg.integrate(x, y)"], qg.where(), "qgauss(x, y, npts) is QGauss(npts).integrate(x, y)")
+    oks = None
+    rets = rules.return_nodes(cfg_of(qg))
+    shown = None
+    if len(rets) == 1 and rets[0].ast.value is not None:
+        v = rules.expand(rets[0].ast.value, qg.node)
+        shown = norm(v)
+        if isinstance(v, ast.Call) and isinstance(v.func, ast.Attribute) and isinstance(v.func.value, ast.Call) \
+                and repo.resolve_name(qg.module, dotted_name(v.func.value.func) or "?") == IU + "QGauss":
+            ctor = _bind_call(repo.func(IU + "QGauss.__init__"), v.func.value)
+            meth = repo.funcs.get(IU + "QGauss." + v.func.attr)
+            b = _bind_call(meth, v) if meth is not None else None
+            if ctor is not None and b is not None:
+                second = {"integrate": "yvals_or_func", "integrate_func": "func", "integrate_data": "yvals"}.get(v.func.attr)
+                oks = v.func.attr == "integrate" and norm(ctor.get("npts", ast.Constant(value=None))) == "npts" and norm(b.get("xvals", ast.Constant(value=None))) == "x" \
+                    and norm(b.get(second, ast.Constant(value=None))) == "y" and ("npts" not in b or norm(b["npts"]) in ("npts", "None")) \
+                    and all(_param_unchanged(qg, p) for p in ("x", "y", "npts"))
+    chk.ob("R17.5", "qgauss::one-shot", oks, qg.where(), "qgauss(x, y, npts) is QGauss(npts).integrate(x, y) (found %s)" % shown)
 
 
 def integrators(chk, repo):
@@ -334,21 +658,42 @@ def integrators(chk, repo):
     chk.ob("R17.6", "QGauss2.integrate_func::formula", bool(eq), fi.where(), "tensor-product sum with both affine maps and the product prefactor (found %s)" % r)
 
 
+class _Arr:
+    """an array value of the shape/element interpreter: symbolic shape and the element at index (i0, i1, ..) as a term"""
+
+    def __init__(self, shape, elem):
+        self.shape = tuple(shape)
+        self.elem = sp.sympify(elem)
+
+    def __repr__(self):
+        return "Arr(%s, %s)" % (self.shape, self.elem)
+
+
+def _ix(k):
+    return sp.Symbol("i%d" % k, integer=True)
+
+
 def shapes(chk, repo):
-    """symbolic shape inference for QGauss2._setup (E12)"""
+    """symbolic shape and element inference for QGauss2._setup (E12): every array is followed as (shape, element at [i0, i1]);
+    the rule is stated on the results (grid and weight shapes, and which weight sits at which grid point), not on how they are built"""
     fi = repo.func(IU + "QGauss2._setup")
     chk.analysed_unit(fi.qualname)
     nx, ny = sp.symbols("nx ny", positive=True, integer=True)
-    shp = {}
+    env = {"nx": nx, "ny": ny, "self.nx": nx, "self.ny": ny}
     issues = []
+    rules_used = []          # (x function, w function, count) per gauleg call
+
+    def shift(a, n):
+        """re-index a for use as the trailing axes of an n-dimensional result; axes of length 1 do not depend on their index"""
+        d = n - len(a.shape)
+        sub = {_ix(k): (_ix(k + d) if a.shape[k] != 1 else 0) for k in range(len(a.shape))}
+        return (1,) * d + a.shape, a.elem.xreplace(sub)
 
     def bc(a, b, where):
-        """broadcast two symbolic shapes (right aligned)"""
-        n = max(len(a), len(b))
-        a = (1,) * (n - len(a)) + tuple(a)
-        b = (1,) * (n - len(b)) + tuple(b)
+        n = max(len(a.shape), len(b.shape))
+        (sa, ea), (sb, eb) = shift(a, n), shift(b, n)
         out = []
-        for x, y in zip(a, b):
+        for x, y in zip(sa, sb):
             if x == y:
                 out.append(x)
             elif x == 1:
@@ -356,65 +701,187 @@ def shapes(chk, repo):
             elif y == 1:
                 out.append(x)
             else:
-                issues.append((where, "cannot broadcast axis lengths %s and %s (shapes %s and %s) unless nx == ny" % (x, y, a, b)))
+                issues.append((where, "cannot broadcast axis lengths %s and %s (shapes %s and %s) unless nx == ny" % (x, y, sa, sb)))
                 out.append(x)
-        return tuple(out)
+        return tuple(out), ea, eb
 
-    def shape_of(e):
-        if isinstance(e, ast.Name):
-            return shp.get(e.id)
-        if isinstance(e, ast.Attribute):
-            return shp.get(norm(e))
-        if isinstance(e, ast.Call) and call_name(e) in ("ones", "zeros") and e.args and isinstance(e.args[0], ast.Tuple):
-            return tuple({"nx": nx, "ny": ny}.get(norm(x), sp.Symbol(norm(x))) for x in e.args[0].elts)
-        if isinstance(e, ast.Subscript) and isinstance(e.slice, ast.Tuple):
-            base = shape_of(e.value)
-            if base is None:
+    def is_np(e, *names):
+        d = dotted_name(e.func)
+        if d is None:
+            return False
+        full = repo.resolve_name(fi.module, d)
+        last = full.rsplit(".", 1)[-1]
+        local_np = isinstance(e.func, ast.Name) and e.func.id in np_local
+        return last in names and (full.startswith("numpy") or local_np)
+
+    np_local = set()
+    for x in walk_no_nested(fi.node):
+        if isinstance(x, ast.ImportFrom) and x.module == "numpy":
+            np_local |= {al.asname or al.name for al in x.names}
+
+    def is_newaxis(s):
+        return (isinstance(s, ast.Constant) and s.value is None) or (dotted_name(s) or "").rsplit(".", 1)[-1] == "newaxis"
+
+    def dim(e):
+        v = ev(e)
+        return v if isinstance(v, sp.Basic) else None
+
+    def ev(e):
+        """_Arr, a scalar term, a tuple of values, or None (not understood)"""
+        if isinstance(e, ast.Constant) and isinstance(e.value, (int, float)) and not isinstance(e.value, bool):
+            return sp.nsimplify(e.value, rational=True)
+        if isinstance(e, (ast.Name, ast.Attribute)):
+            return env.get(norm(e)) if not (isinstance(e, ast.Attribute) and e.attr == "T") else tr(ev(e.value))
+        if isinstance(e, ast.Tuple):
+            vs = tuple(ev(x) for x in e.elts)
+            return None if any(v is None for v in vs) else vs
+        if isinstance(e, ast.UnaryOp) and isinstance(e.op, (ast.USub, ast.UAdd)):
+            v = ev(e.operand)
+            if isinstance(v, _Arr):
+                return _Arr(v.shape, -v.elem if isinstance(e.op, ast.USub) else v.elem)
+            return None if v is None or isinstance(v, tuple) else (-v if isinstance(e.op, ast.USub) else v)
+        if isinstance(e, ast.BinOp) and isinstance(e.op, (ast.Add, ast.Sub, ast.Mult, ast.Div)):
+            return arith(type(e.op), ev(e.left), ev(e.right), e)
+        if isinstance(e, ast.Subscript):
+            base = ev(e.value)
+            if isinstance(base, tuple) and isinstance(const_value(e.slice), int) and -len(base) <= const_value(e.slice) < len(base):
+                return base[const_value(e.slice)]
+            if not isinstance(base, _Arr):
                 return None
-            out = []
-            it = iter(base)
-            for s in e.slice.elts:
-                if isinstance(s, ast.Name) and s.id == "newaxis" or (isinstance(s, ast.Constant) and s.value is None):
-                    out.append(1)
-                elif isinstance(s, ast.Slice):
-                    out.append(next(it))
-            return tuple(out)
-        if isinstance(e, ast.BinOp):
-            a, b = shape_of(e.left), shape_of(e.right)
-            if a is None or b is None:
-                return a or b
-            return bc(a, b, fi.where(e))
+            parts = list(e.slice.elts) if isinstance(e.slice, ast.Tuple) else [e.slice]
+            shape, sub, k = [], {}, 0
+            for s in parts:
+                if is_newaxis(s):
+                    shape.append(1)
+                elif isinstance(s, ast.Slice) and s.lower is None and s.upper is None and s.step is None and k < len(base.shape):
+                    sub[_ix(k)] = _ix(len(shape))
+                    shape.append(base.shape[k])
+                    k += 1
+                else:
+                    return None
+            while k < len(base.shape):
+                sub[_ix(k)] = _ix(len(shape))
+                shape.append(base.shape[k])
+                k += 1
+            return _Arr(shape, base.elem.xreplace(sub))
+        if isinstance(e, ast.Call):
+            if call_name(e) == "gauleg" and repo.resolve_name(fi.module, dotted_name(e.func) or "?") == IU + "gauleg":
+                b = _bind_call(repo.func(IU + "gauleg"), e)
+                n = dim(b["npts"]) if b and "npts" in b else None
+                if n is None:
+                    return None
+                k = len(rules_used)
+                fx, fw = sp.Function("X%d" % k), sp.Function("W%d" % k)
+                rules_used.append((fx, fw, n))
+                return (_Arr((n,), fx(_ix(0))), _Arr((n,), fw(_ix(0))))
+            if is_np(e, "meshgrid") and len(e.args) == 2:
+                a, b = ev(e.args[0]), ev(e.args[1])
+                extra = [k.arg for k in e.keywords if k.arg != "indexing"]
+                if not (isinstance(a, _Arr) and isinstance(b, _Arr) and len(a.shape) == 1 and len(b.shape) == 1) or extra:
+                    return None
+                ind = kwarg(e, "indexing")
+                ind = "xy" if ind is None else const_value(ind)
+                if ind == "xy":
+                    return (_Arr((b.shape[0], a.shape[0]), a.elem.xreplace({_ix(0): _ix(1)})), _Arr((b.shape[0], a.shape[0]), b.elem))
+                if ind == "ij":
+                    return (_Arr((a.shape[0], b.shape[0]), a.elem), _Arr((a.shape[0], b.shape[0]), b.elem.xreplace({_ix(0): _ix(1)})))
+                return None
+            if is_np(e, "ones", "zeros") and e.args:
+                s = ev(e.args[0])
+                s = s if isinstance(s, tuple) else (s,)
+                if all(isinstance(x, sp.Basic) for x in s):
+                    return _Arr(s, 1 if call_name(e) == "ones" else 0)
+                return None
+            if is_np(e, "ones_like", "zeros_like") and e.args:
+                a = ev(e.args[0])
+                return _Arr(a.shape, 1 if call_name(e) == "ones_like" else 0) if isinstance(a, _Arr) else None
+            if is_np(e, "outer") and len(e.args) == 2 and not e.keywords:
+                a, b = ev(e.args[0]), ev(e.args[1])
+                if isinstance(a, _Arr) and isinstance(b, _Arr) and len(a.shape) == 1 and len(b.shape) == 1:
+                    return _Arr((a.shape[0], b.shape[0]), a.elem * b.elem.xreplace({_ix(0): _ix(1)}))
+                return None
+            if is_np(e, "multiply", "add", "subtract", "divide") and len(e.args) == 2 and not e.keywords:
+                op = {"multiply": ast.Mult, "add": ast.Add, "subtract": ast.Sub, "divide": ast.Div}[call_name(e)]
+                return arith(op, ev(e.args[0]), ev(e.args[1]), e)
+            if is_np(e, "transpose") and len(e.args) == 1 and not e.keywords:
+                return tr(ev(e.args[0]))
+            if is_np(e, "array", "asarray", "copy", "ascontiguousarray") and e.args:
+                return ev(e.args[0])
+            if isinstance(e.func, ast.Attribute) and e.func.attr in ("copy", "transpose") and not e.args and not e.keywords:
+                v = ev(e.func.value)
+                return tr(v) if e.func.attr == "transpose" else v
+            if isinstance(e.func, ast.Attribute) and e.func.attr == "reshape":
+                a = ev(e.func.value)
+                args = list(e.args[0].elts) if len(e.args) == 1 and isinstance(e.args[0], ast.Tuple) else list(e.args)
+                if isinstance(a, _Arr) and len(a.shape) == 1 and len(args) == 2:
+                    c = [const_value(x) for x in args]
+                    if c == [1, -1]:
+                        return _Arr((1, a.shape[0]), a.elem.xreplace({_ix(0): _ix(1)}))
+                    if c == [-1, 1]:
+                        return _Arr((a.shape[0], 1), a.elem)
+                return None
         return None
 
-    for st in walk_no_nested(fi.node):
-        if not isinstance(st, ast.Assign):
-            continue
-        t, v = st.targets[0], st.value
-        if isinstance(v, ast.Call) and call_name(v) == "gauleg" and isinstance(t, ast.Tuple):
-            n = {"nx": nx, "ny": ny}.get(norm(v.args[2]))
-            for e in t.elts:
-                shp[norm(e)] = (n,)
-        elif isinstance(v, ast.Call) and call_name(v) == "meshgrid" and isinstance(t, ast.Tuple) and len(v.args) == 2:
-            a, b = shape_of(v.args[0]), shape_of(v.args[1])
-            ij = kwarg(v, "indexing") is not None and norm(kwarg(v, "indexing")) == "'ij'"
-            if a and b:
-                g = (a[0], b[0]) if ij else (b[0], a[0])
-                for e in t.elts:
-                    shp[norm(e)] = g
+    def tr(v):
+        if isinstance(v, _Arr) and len(v.shape) == 2:
+            return _Arr((v.shape[1], v.shape[0]), v.elem.xreplace({_ix(0): _ix(1), _ix(1): _ix(0)}))
+        return v if isinstance(v, _Arr) and len(v.shape) < 2 else None
+
+    def arith(op, a, b, node):
+        if a is None or b is None or isinstance(a, tuple) or isinstance(b, tuple):
+            return None
+        f = {ast.Add: lambda x, y: x + y, ast.Sub: lambda x, y: x - y, ast.Mult: lambda x, y: x * y, ast.Div: lambda x, y: x / y}[op]
+        if not isinstance(a, _Arr) and not isinstance(b, _Arr):
+            return f(a, b)
+        a = a if isinstance(a, _Arr) else _Arr((), a)
+        b = b if isinstance(b, _Arr) else _Arr((), b)
+        shape, ea, eb = bc(a, b, fi.where(node))
+        return _Arr(shape, f(ea, eb))
+
+    def store(t, v):
+        if isinstance(t, (ast.Tuple, ast.List)):
+            for k, el in enumerate(t.elts):
+                store(el, v[k] if isinstance(v, tuple) and len(v) == len(t.elts) else None)
         elif isinstance(t, (ast.Name, ast.Attribute)):
-            s = shape_of(v)
-            if s is not None:
-                shp[norm(t)] = s
-    chk.notes["QGauss2_shapes"] = {k: str(v) for k, v in shp.items()}
-    grid = shp.get("self.xgrid")
-    wg = shp.get("self.wgrid")
-    chk.ob("R17.7", "QGauss2._setup::shapes-inferred", grid is not None and wg is not None, fi.where(), "shapes inferred: grid %s, weights %s" % (grid, wg))
+            if v is None:
+                env.pop(norm(t), None)
+            else:
+                env[norm(t)] = v
+
+    straight = True
+    for st in fi.node.body:
+        if isinstance(st, ast.Assign):
+            v = ev(st.value)
+            for t in st.targets:
+                store(t, v)
+        elif isinstance(st, ast.AugAssign) and isinstance(st.op, (ast.Add, ast.Sub, ast.Mult, ast.Div)):
+            store(st.target, arith(type(st.op), ev(st.target), ev(st.value), st))
+        elif isinstance(st, (ast.Import, ast.ImportFrom, ast.Pass)) or (isinstance(st, ast.Expr) and isinstance(st.value, ast.Constant)):
+            pass
+        else:
+            straight = False         # control flow or calls with effects the interpreter does not follow
+    chk.notes["QGauss2_shapes"] = {k: str(v) for k, v in env.items()}
+    xg, yg, wg = env.get("self.xgrid"), env.get("self.ygrid"), env.get("self.wgrid")
+    known = all(isinstance(v, _Arr) for v in (xg, yg, wg)) and straight
+    chk.ob("R17.7", "QGauss2._setup::shapes-inferred", True if known else None, fi.where(), "shapes inferred: grids %s / %s, weights %s"
+           % tuple(getattr(v, "shape", None) for v in (xg, yg, wg)))
     for where, txt in issues:
         chk.ob("R17.7", "QGauss2._setup::weight-grid-broadcast", False, where, "building the weight grid: %s; QGauss2(nx, ny) with nx != ny fails" % txt)
-    if not issues:
+    if not issues and known:
         chk.ob("R17.7", "QGauss2._setup::weight-grid-broadcast", True, fi.where(), "weight grids broadcast for nx != ny")
-    if grid is not None and wg is not None:
-        chk.ob("R17.7", "QGauss2._setup::weights-match-grid", tuple(grid) == tuple(wg), fi.where(), "the weight grid has the shape of the abscissa grids (%s vs %s): zvals * wgrid is an element-wise product" % (wg, grid))
-    # wx varies along the x axis of the grid, wy along y
-    env = {norm(a.targets[0]): norm(a.value) for a in walk_no_nested(fi.node) if isinstance(a, ast.Assign)}
-    chk.ob("R17.7", "QGauss2._setup::tensor-product", env.get("self.wgrid") == "wxgrid * wygrid" and "wx[" in env.get("wxgrid", "") and "wy[" in env.get("wygrid", ""), fi.where(), "weights are the tensor product wx (x) wy")
+    if known:
+        chk.ob("R17.7", "QGauss2._setup::weights-match-grid", xg.shape == yg.shape == wg.shape and len(wg.shape) == 2, fi.where(),
+               "the weight grid has the shape of the abscissa grids (%s vs %s): zvals * wgrid is an element-wise product" % (wg.shape, xg.shape))
+        # the weight at a grid point is wx[a] * wy[b] where that point is (x[a], y[b]); x/wx come from one gauleg call for nx
+        # points, y/wy from one for ny points
+        okt = None
+        ex, ey = xg.elem, yg.elem
+        if isinstance(ex, sp.core.function.AppliedUndef) and isinstance(ey, sp.core.function.AppliedUndef) and len(ex.args) == 1 and len(ey.args) == 1:
+            rx = [r for r in rules_used if r[0] == ex.func]
+            ry = [r for r in rules_used if r[0] == ey.func]
+            if rx and ry:
+                want = rx[0][1](ex.args[0]) * ry[0][1](ey.args[0])
+                okt = rx[0] is not ry[0] and rx[0][2] == nx and ry[0][2] == ny and sp.simplify(wg.elem - want) == 0 \
+                    and {ex.args[0], ey.args[0]} == {_ix(0), _ix(1)}
+        chk.ob("R17.7", "QGauss2._setup::tensor-product", okt, fi.where(), "weights are the tensor product: the weight at the grid point (x[a], y[b]) is wx[a] * wy[b] "
+               "(grid points %s, %s; weight %s)" % (ex, ey, wg.elem))
